@@ -200,6 +200,15 @@ C02_HistCers ==
          Cer("ctap2", "mc", [BaseReq EXCEPT !.algs = <<"RS256", "ES256">>, !.rp = "r1", !.user = "u2"], BaseEnv) >> :
         a \in {<<"ES256">>, <<"EdDSA">>}, b \in {<<"ES256", "RS256">>, <<"unknown">>}, r1 \in {"r1", "r2"}, r2 \in {"r1", "r2"} }
 
+\* repeated registrations for one account (same RP, same user handle) on the shipped map store: each adds one record
+C02_HistMemCfgs == { [BaseCfg EXCEPT !.storeKind = "memory", !.disc = "forced", !.counterOn = c] : c \in BOOLEAN }
+C02_HistMemStores == { << <<>> >>, << <<Cred("c1", "r1", "u1", NoCtr, "none"), Cred("c2", "r2", "u1", Ctr(0, 2), "none")>> >> }
+C02_HistMemCers ==
+    { << Cer("ctap2", "mc", [BaseReq EXCEPT !.user = u1, !.rk = k1], BaseEnv),
+         Cer("ctap2", "mc", [BaseReq EXCEPT !.user = u2, !.rk = k2], BaseEnv),
+         Cer("ctap2", "mc", [BaseReq EXCEPT !.user = "u1", !.rp = "r2", !.rk = TRUE], BaseEnv) >> :
+        u1 \in {"u1", "u2"}, u2 \in {"u1", "u2"}, k1 \in BOOLEAN, k2 \in BOOLEAN }
+
 C03_Cfgs == { [BaseCfg EXCEPT !.counterOn = c, !.emptyAsErr = e] : c \in BOOLEAN, e \in BOOLEAN }
 C03_Stores == { << <<>> >>, << <<Cred("c1", "r2", "u1", Ctr(0, 3), "none")>> >> }
 C03_Reg(r, u, rk) == Cer("ctap2", "mc", [BaseReq EXCEPT !.rp = r, !.user = u, !.rk = rk], BaseEnv)
